@@ -241,7 +241,13 @@ fn smallbuf_prop(model: &Model, tape: &[u32], st: &mut Stats) -> Result<(), Stri
     }
     else {
         st.class("run: response fits");
-        if errors != 0 || out.out != expected {
+        // the canonical encoding fits. Either the answer arrives complete (canonical or any other
+        // encoding that decodes to the value) and unreported, or - if the library uses a longer valid
+        // encoding that does not fit - an error is reported; silence or garbage is never acceptable
+        let typed = [(d.ret.clone(), env.rets[id].clone())];
+        let decodes = vcore::decode::match_response_sequence(&typed, &out.out) == Ok(1);
+        let tight = cap < expected.len() + 16;
+        if !((errors == 0 && decodes) || (errors >= 1 && tight)) {
             return Err(format!(
                 "response fits the {}-byte buffer but output is '{}' (expected '{}'), {} errors [input='{}']",
                 cap,
@@ -272,15 +278,20 @@ fn smallbuf_prop(model: &Model, tape: &[u32], st: &mut Stats) -> Result<(), Stri
                 ));
             }
         }
-        else if errors != 0 || written != expected {
-            return Err(format!(
-                "process::<{}>: response fits but written '{}' (expected '{}'), {} errors [stream='{}']",
-                n,
-                esc(&written),
-                esc(&expected),
-                errors,
-                esc(&msg)
-            ));
+        else {
+            let typed = [(d.ret.clone(), env.rets[id].clone())];
+            let decodes = vcore::decode::match_response_sequence(&typed, &written) == Ok(1);
+            let tight = n < expected.len() + 16;
+            if !((errors == 0 && decodes) || (errors >= 1 && tight)) {
+                return Err(format!(
+                    "process::<{}>: response fits but written '{}' (expected '{}'), {} errors [stream='{}']",
+                    n,
+                    esc(&written),
+                    esc(&expected),
+                    errors,
+                    esc(&msg)
+                ));
+            }
         }
     }
     st.sample(|| json!({ "message": esc(&msg), "cap": cap, "N": n, "response_len": expected.len() }));
